@@ -1499,7 +1499,16 @@ class FortranFile:
                 line_no_comment = line
             # Split lines with semicolons, place the multiple lines into a stack
             if line_stripped.find(";") >= 0:
-                multi_lines.extendleft(line_stripped.split(";"))
+                # The separators are looked for outside character literals, the
+                # statements are cut out of the text that still has its literals
+                pieces = []
+                start = 0
+                for i, char in enumerate(line_stripped):
+                    if char == ";":
+                        pieces.append(line_no_comment[start:i])
+                        start = i + 1
+                pieces.append(line_no_comment[start:])
+                multi_lines.extendleft(pieces)
                 line = multi_lines.pop()
                 line_stripped = line
                 line_no_comment = line
